@@ -33,11 +33,26 @@ def register(add, parse, find_func, const_int, rat_of, ShapeError, module_assign
         if isinstance(n, ast.AnnAssign) and getattr(n.target, "attr", "") == "interval" and isinstance(n.value, ast.Constant):
             default = n.value.value
     run = find_func(act, "run", cls="Actuator")
+    # the body of the run may live in a helper `_run` that `run` wraps (trigger reset before, trigger list handed back after)
+    bodies = [run]
+    for c in act.body:
+        if isinstance(c, ast.ClassDef) and c.name == "Actuator":
+            bodies += [f for f in c.body if isinstance(f, ast.FunctionDef) and f.name == "_run"]
     compared = None
-    for n in ast.walk(run):
-        if isinstance(n, ast.Compare) and getattr(n.left, "attr", "") == "interval" and isinstance(n.ops[0], ast.NotEq) \
-                and isinstance(n.comparators[0], ast.Constant):
-            compared = n.comparators[0].value
+    for body in bodies:
+        for n in ast.walk(body):
+            if isinstance(n, ast.Compare) and getattr(n.left, "attr", "") == "interval" and isinstance(n.ops[0], ast.NotEq) \
+                    and isinstance(n.comparators[0], ast.Constant):
+                compared = n.comparators[0].value
+    # source flag: does `run` start every trigger afresh (`for t in <strategy.triggers>: t.reset()`) and hand the strategy's trigger list back
+    # as it found it (`finally: self._strategy.triggers = <the list taken before>`)?  (C02 rerun clause, C18 "every bar grid")
+    resets = any(isinstance(n, ast.For) and any(isinstance(c, ast.Call) and getattr(c.func, "attr", "") == "reset" and
+                                                 getattr(c.func.value, "id", None) == getattr(n.target, "id", 0) for c in ast.walk(n))
+                 for n in ast.walk(run))
+    restores = any(isinstance(n, ast.Try) and any(isinstance(a, ast.Assign) and getattr(a.targets[0], "attr", "") == "triggers"
+                                                  for f in n.finalbody for a in ast.walk(f)) for n in ast.walk(run))
+    add("coreRunResetsTriggers", "Bool", "true" if (resets and restores) else "false",
+        "Actuator.run resets every trigger of the strategy before the run and restores strategy.triggers afterwards")
     if default is None or compared is None or default != compared:
         raise ShapeError(f"Actuator.interval default {default!r} and the literal run() compares with {compared!r} should be the same string")
     add("coreRawIntervalSec", "Int", f"({_seconds(default, ShapeError)})", f"the interval string {default!r} for which run() does not resample, in seconds")
